@@ -544,7 +544,8 @@ impl<'a> Elab<'a> {
                 }
             }
             // ---- recursive append inside a stream fold over SmallObj elements
-            76..=79 if streams && !self.cfg.stream_fold_par_only => {
+            // (part of the clean domain too since fixes F18/F19: the append goes to the folded stream itself)
+            76..=79 if streams => {
                 let cand: Vec<(String, String)> = env
                     .iters
                     .iter()
@@ -911,7 +912,7 @@ impl<'a> Elab<'a> {
         let inner_ctx = Ctx { protected: ctx.protected, ..ctx };
         // shape of the body around `next`
         let mut shape = pick(c[3], if streamlike { 6 } else { 8 });
-        if streamlike && self.cfg.stream_fold_par_only && std::env::var("VERIF_TRY_SEQ").is_err() {
+        if streamlike && self.cfg.stream_fold_par_only {
             shape = 3;
         }
         if streamlike && !(shape == 3 || shape == 4) {
